@@ -23,10 +23,14 @@ import common  # noqa: E402
 import ddsmt_env  # noqa: E402
 
 DIRECT = os.path.join(common.VERIF, 'cmds', 'direct.py')
-M = 'MATCH'
-GOLD = {'main': {'exit': 7, 'out': 'G-out MATCH line\n',
-                 'err': 'G-err MATCH line\n'},
-        'cc': {'exit': 0, 'out': 'CC-out MATCH\n', 'err': 'CC-err MATCH\n'}}
+# the match string is compared as a plain substring: its characters mean
+# nothing to ddSMT.  As a regular expression it would NOT match its own text
+# and WOULD match the text NEAR.
+M = 'MA.CH(1)+[x]'
+NEAR = 'MAXCH11x'
+GOLD = {'main': {'exit': 7, 'out': f'G-out {M} line\n',
+                 'err': f'G-err {M} line\n'},
+        'cc': {'exit': 0, 'out': f'CC-out {M}\n', 'err': f'CC-err {M}\n'}}
 DIFF_EXIT = {'main': 3, 'cc': 9}
 
 FLAGS = ['unchecked', 'ignore_output', 'ignore_out', 'ignore_err', 'match_out',
@@ -40,7 +44,7 @@ def stream(role, which, kind, alt=0):
     diff_m = f'other {M} text\n' if alt % 2 == 0 else (
         g.replace('\n', '\r\n') if alt % 4 == 1 else g.replace('\n', '\r'))
     return {'same': g, 'diff_m': diff_m,
-            'diff_nom': 'other text\n', 'empty': ''}[kind]
+            'diff_nom': f'other {NEAR} text\n', 'empty': ''}[kind]
 
 
 def argv_of(c, wd):
@@ -137,7 +141,7 @@ def main():
         'and one real check per case; non-trivial = not --unchecked; distinct '
         'by case')
     rep.assumptions += [
-        'one concrete text per stream kind; the match string is "MATCH"',
+        'one concrete text per stream kind; the match string is "MA.CH(1)+[x]" (plain substring; the texts without it contain "MAXCH11x")',
         'configurations that stop at the golden run (match string absent from '
         'the golden output, --unchecked with a match string) belong to C10',
     ]
